@@ -236,6 +236,10 @@ class _Canon:
     def prop(self, o):
         return ("prop", getattr(o.fget, "__qualname__", None))
 
+    def dict_view(self, o):
+        c = self.c
+        return ("view", type(o).__name__, tuple([c(x) for x in o]))
+
     def repr_(self, o):
         return ("repr", type(o).__name__, repr(o))
 
@@ -287,6 +291,8 @@ def _resolve(t, o):
         h = _Canon.prop
     elif issubclass(t, argparse.ArgumentParser):
         h = _Canon.parser
+    elif tn in ("dict_keys", "dict_values", "dict_items"):
+        h = _Canon.dict_view
     elif issubclass(t, (inspect.Parameter, inspect.Signature)):
         h = _Canon.repr_
     elif tn == "TaskStepMethWrapper":
